@@ -187,6 +187,11 @@ type vRespWriter struct {
 	// what the header looked like when the status line / first body byte went out
 	sentCL string
 	sent   bool
+	// fault injection: the failFrom-th Write call and all later ones fail with failErr (0 = never)
+	failFrom int
+	failErr  error
+	calls    int
+	failed   bool
 }
 
 func (w *vRespWriter) Header() http.Header { return w.h }
@@ -199,6 +204,11 @@ func (w *vRespWriter) send() {
 func (w *vRespWriter) WriteHeader(status int) { w.status = status; w.send() }
 func (w *vRespWriter) Write(b []byte) (int, error) {
 	w.send()
+	w.calls++
+	if w.failFrom > 0 && w.calls >= w.failFrom {
+		w.failed = true
+		return 0, w.failErr
+	}
 	w.body = append(w.body, b...)
 	return len(b), nil
 }
@@ -282,6 +292,54 @@ func VerifMiddleware(n int) {
 	vAssert(refEq(rw.body, want), "middleware: response body is what the chosen minifier produces (or the original bytes)")
 	if minified && len(in) > 0 {
 		vAssert(rw.sentCL == "", "middleware: a stale Content-Length is removed when the body is minified")
+	}
+	vReach("end")
+}
+
+// VerifResponseWriterFault (C12/C14): the underlying http.ResponseWriter starts failing at its k-th Write with one of
+// the errors net/http really returns (or a plain error): by the time Close returns the error has been reported
+// (output was lost), whatever the chunking of the handler's writes.
+func VerifResponseWriterFault(n int) {
+	in := verifC12Input(n)
+	for _, c := range in {
+		vAssume(c != 'z')
+	}
+	m := New()
+	m.AddFunc("text/css", verifC12Stub)
+	rw := &vRespWriter{h: http.Header{}}
+	rw.failFrom = 1 + vChoice("failfrom", 2)
+	// net/http's package initialisation is not executed by the engine: give its sentinel errors an identity there
+	if http.ErrBodyNotAllowed == nil {
+		http.ErrBodyNotAllowed = &vError{s: "http: request method or response status code does not allow body"}
+	}
+	if http.ErrHijacked == nil {
+		http.ErrHijacked = &vError{s: "http: connection has been hijacked"}
+	}
+	if http.ErrContentLength == nil {
+		http.ErrContentLength = &vError{s: "http: wrote more than the declared Content-Length"}
+	}
+	rw.failErr = []error{vErrWrite, http.ErrBodyNotAllowed, http.ErrHijacked, http.ErrContentLength}[vChoice("errkind", 4)]
+	rw.h.Set("Content-Type", []string{"text/css", "text/other"}[vChoice("ct", 2)])
+	mw := m.ResponseWriter(rw, &http.Request{RequestURI: "/x"})
+	pos, k := 0, 0
+	var werr error
+	for pos < len(in) {
+		c := 1 + vChoice("hc"+string(rune('a'+k)), 2)
+		k++
+		if pos+c > len(in) {
+			c = len(in) - pos
+		}
+		if _, e := mw.Write(in[pos : pos+c]); e != nil {
+			werr = e
+			break
+		}
+		pos += c
+	}
+	cerr := mw.Close()
+	vReach("after-close")
+	vOutput("body", rw.body)
+	if rw.failed {
+		vAssert(werr != nil || cerr != nil, "response writer: a failing underlying writer is reported by Write or Close")
 	}
 	vReach("end")
 }
